@@ -159,6 +159,26 @@ CLAIMED["C16"] = dict(
          "linalg.inv are sympy closed forms. The all-sizes index agreement planned in DESIGN was not built.",
     design="3 (C16)")
 
+CLAIMED["C15"] = dict(
+    level="proof",
+    text=("The closed forms of the template class are proved against the same junction conditions the general solver is proved against (C02/C03/"
+          "C06), specialised to the template EOS w+=wN (T/Tn)^mu, p+=pN+(w+-wN)/mu, w-=psiN wN (T/Tn)^nu: _findTm makes the energy flux equal on both "
+          "sides; getVp solves the wall relation on both branches and the alpha(vp,vm) of _shooting is its inverse; wFromAlpha; findHydroBoundaries "
+          "(c1, c2, velocityMid with the template EOS); __init__ definitions of alN, psiN, cb2, cs2, mu, nu, wN, pN; vJ and detonationVAndT in C06."),
+    note=COMMON_NOTE + " Power laws used for symbolic exponents: b^(x+y)=b^x b^y, b^(-x)=1/b^x, (b^x)^y=b^(xy), (ab)^x=a^x b^x with every factor "
+         "assumed positive. Not decided: numerical agreement of the two root finders to tolerance, uniqueness of the physical root, vwLTE/kappa agreement.",
+    design="3 (C15)")
+CLAIMED["C18"] = dict(
+    level="other",
+    text=("BOUNDED stand-in, not a proof: the real mask/dispatch code of InterpolatableFunction interpreted on symbolic inputs of at most 2 entries "
+          "(scalar, (2,), (1,2)), 1- and 2-component functions, all 16 mode pairs, spline and function uninterpreted: evaluate returns the input "
+          "shape with S(x) inside and exactly the mode's prescription outside (ERROR raises ValueError), derivative follows the same rule entry by "
+          "entry, non-finite rows are dropped individually, setExtrapolationType rebuilds the spline from the same table with extrapolation iff a "
+          "side is FUNCTION from any previous pair, range = min/max of kept points. F4a/b/c found here were fixed in the repository."),
+    note="Bound: array length <= 2, rank <= 2, components <= 2. Not decided: spline accuracy, adaptive updates, extendInterpolationTable "
+         "(np.arange with symbolic bounds), file round trip.",
+    design="3 (C18)")
+
 NOT_APPLICABLE = {
     "C11": "RK45 phase tracing interleaved with BFGS re-minimisation on an arbitrary potential: the content is the numerical behaviour of external routines; no contract within reach expresses or decides it (DESIGN section 4)",
     "C20": "values of improper integrals of transcendental integrands, 2x10000 table rows and quad: not decidable by SMT; checking rows against the integral is numerical testing, a different family (DESIGN section 4)",
